@@ -171,6 +171,7 @@ getpwnam(const char *name)
 
 /* ---- process table */
 struct hx_proc hx_procs[HX_MAXPROC];
+long hx_spawn_fail_in;		/* the n-th spawn from now fails, 0 = none */
 size_t hx_nprocs;
 static int last_pipe[2] = {-1, -1};
 static pid_t exitq[HX_MAXPROC];
@@ -197,8 +198,7 @@ posix_spawn(pid_t *pid, const char *path, const posix_spawn_file_actions_t *fa,
 	if (hx_nprocs >= HX_MAXPROC) {
 		/* the checkers take this line for "history too big for the harness" */
 		hx_log("ERR process table full\n");
-		errno = EAGAIN;
-		return -1;
+		return EAGAIN;
 	}
 	struct hx_proc *p = &hx_procs[hx_nprocs];
 	p->pid = 5000 + (pid_t)hx_nprocs;
@@ -220,6 +220,16 @@ posix_spawn(pid_t *pid, const char *path, const posix_spawn_file_actions_t *fa,
 		}
 	}
 	hx_log("\n");
+	if (hx_spawn_fail_in > 0 && --hx_spawn_fail_in == 0) {
+		/* the system has no process to spare: like the real call this hands the error back (errno is not
+		 * involved) and leaves *pid alone.  To the log the attempt is a run that is over at once */
+		hx_log("SPAWNFAIL %zu %.6f\n", hx_nprocs, hx_now);
+		hx_log("EXIT %zu %d %.6f\n", hx_nprocs, (int)p->pid, hx_now);
+		hx_log("REAP %d %.6f\n", (int)p->pid, hx_now);
+		p->alive = 0;
+		hx_nprocs++;
+		return EAGAIN;
+	}
 	*pid = p->pid;
 	hx_nprocs++;
 	return 0;
